@@ -115,6 +115,8 @@ func runLifeProfile(l *Life, profile string, n, steps int) {
 		case "buildstress":
 			l.BuildStress(6, steps, fmt.Sprintf("%s-%d", profile, i))
 			continue
+		case "vec":
+			p = VecProfile()
 		case "syn":
 			p = SynProfile()
 		case "mergey":
